@@ -220,6 +220,7 @@ def explore(prop, tier, seed, jobs):
            'samples': [], 'outcomes': set(), 'distinct': 0, 'harness_errors': [], 'shards': len(shards),
            'shard_wall_max': 0.0}
     tasks = [(prop, tier, shards[i]) for i in order]
+    lib.pt()        # fail here, not in every respawned worker, if the implementation cannot be imported
     if jobs == 1:
         _worker_init()
         results = map(_worker, tasks)
